@@ -290,6 +290,7 @@ def check_case(case: dict, reply: dict) -> list:
     out = []
     view = None
     expect = None  # (nodes, edges) the next query must report after a successful remove
+    expect_map = None  # (nodes, edges, parents) the next query must report after update_edges
     for op, rep in zip(case["ops"], reply["res"]):
         if op["op"] == "query":
             op2 = dict(op)
@@ -300,9 +301,34 @@ def check_case(case: dict, reply: dict) -> list:
                 if view.nodes != expect[0] or view.edges != expect[1]:
                     out.append(("remove: the graph afterwards is not the old graph minus the node and its incident edges", {"nodes": view.nodes, "edges": view.edges, "want_nodes": expect[0], "want_edges": expect[1]}))
             expect = None
+            if expect_map is not None:
+                nodes, edges, parents = expect_map
+                got_par = {p["n"]: p["parents"] for p in rep["per"] if p["n"] in parents}
+                if rep["nodes"] != nodes or [tuple(e) for e in rep["edges"]] != edges or any(got_par[k] != parents[k] for k in got_par):
+                    out.append(("update_edges: the graph afterwards is not the graph of the new mapping (nodes / edges / parents)", {"nodes": rep["nodes"], "edges": rep["edges"], "parents": got_par, "want_nodes": nodes, "want_edges": edges, "want_parents": parents}))
+            expect_map = None
+        elif op["op"] == "update_edges":
+            # the graph of the mapping: nodes in order of first mention, edges in mapping order,
+            # parents in edge order (independent re-derivation, not the model)
+            nodes, children, parents = [], {}, {}
+            for u, cs in op["map"]:
+                if u not in parents:
+                    nodes.append(u)
+                    parents[u], children[u] = [], []
+                for c in cs:
+                    if c not in parents:
+                        nodes.append(c)
+                        parents[c], children[c] = [], []
+                    children[u].append(c)
+                    parents[c].append(u)
+            edges = [(u, c) for u in nodes for c in children[u]]  # get_edges: dict order, child order
+            expect_map = (nodes, edges, parents)
+            expect = None
+            view = None
         elif op["op"] == "remove":
             x = op["n"]
             expect = None
+            expect_map = None
             if view is not None and not view.dangling:
                 if x in view.pos:
                     if rep is not None:
@@ -315,6 +341,7 @@ def check_case(case: dict, reply: dict) -> list:
         elif op["op"] in ("init", "add_node", "add_child"):
             view = None
             expect = None
+            expect_map = None
         elif op["op"] == "jobcost" and view is not None and not view.dangling and not view.cyclic and view.nodes:
             # clause: critical-path runtime == maximum path weight (all jobs live, positive runtimes;
             # for completion_time additionally no SLO overrides, i.e. cost == runtime)
